@@ -458,3 +458,72 @@ package geom
 //@   mode real
 //@   requires len(a) == len(b) && (forall k int :: 0 <= k && k < len(a) ==> abs(a[k].X - b[k].X) < e && abs(a[k].Y - b[k].Y) < e)
 //@   ensures ptsClose(a, b, e)
+
+//@ -- ------------------------------------------------------------ C13: Simplify
+//@ func segMakesNotSimple
+//@   prop C13
+//@   mode real
+//@   modifies nothing
+//@   loop 1 `for _, p := range paths`
+//@     invariant [outer] 0 <= #1 && #1 <= len(paths)
+//@   loop 2 `for i := 0; i < len(p)-1; i++`
+//@     invariant [inner] 0 <= i
+//@     decreases len(p) - i
+
+//@ func simplifyCurve
+//@   prop C13
+//@   mode real
+//@   ensures [empty] len(curve) == 0 ==> len(result) == 0
+//@   ensures [endpoints] len(curve) >= 1 ==> len(result) >= 1 && result[0] == curve[0] && result[len(result)-1] == curve[len(curve)-1]
+//@   ensures [short] len(curve) <= 2 ==> len(result) == len(curve) && (forall k int :: 0 <= k && k < len(curve) ==> result[k] == curve[k])
+//@   ensures [fresh] fresh(result)
+//@   ensures [bounded] len(result) <= len(curve)
+//@   modifies nothing
+//@   loop 1 `for {`
+//@     invariant [first] i == 0 && len(out) == 0 && cap(out) == len(curve) && fresh(out) && len(curve) >= 3
+//@     decreases 1 - i
+//@   loop 2 `for j := i + 2; j < len(curve); j++`
+//@     invariant [scan] 0 <= i && i + 2 <= j && j <= len(curve) && len(curve) >= 3 && (breakTime <==> j == len(curve))
+//@     invariant [out] fresh(out) && cap(out) == len(curve) && 1 <= len(out) && out[0] == curve[0] && (breakTime ? (len(out) <= i + 2 && out[len(out)-1] == curve[len(curve)-1]) : (len(out) <= i + 1 && out[len(out)-1] == curve[i]))
+//@     decreases len(curve) - i, len(curve) - j
+//@   loop 3 `for k := i + 1; k < j; k++`
+//@     invariant [scan] !breakTime2 && 0 <= i && i + 1 <= k && k <= j && i + 2 <= j && j < len(curve) && i == i@2 && j == j@2
+//@     invariant [out] fresh(out) && cap(out) == len(curve) && 1 <= len(out) && len(out) <= i + 1 && out[0] == curve[0] && out[len(out)-1] == curve[i]
+//@     decreases j - k
+//@   loop 4 `for {`
+//@     invariant [backoff] i + 2 <= j && j < len(curve)
+//@     decreases j - i
+
+//@ func (l LineString) Simplify
+//@   prop C13
+//@   mode real
+//@   ensures [type] typeof(result) == LineString && fresh(result.(LineString))
+//@   ensures [endpoints] len(l) >= 1 ==> len(result.(LineString)) >= 1 && result.(LineString)[0] == l[0] && result.(LineString)[len(result.(LineString))-1] == l[len(l)-1]
+//@   ensures [bounded] len(result.(LineString)) <= len(l)
+//@   modifies nothing
+
+//@ func (p Polygon) Simplify
+//@   prop C13
+//@   mode real
+//@   ensures [type] typeof(result) == Polygon && fresh(result.(Polygon)) && len(result.(Polygon)) == len(p)
+//@   ensures [rings] forall r int :: 0 <= r && r < len(p) ==> len(result.(Polygon)[r]) <= len(p[r]) && (len(p[r]) >= 1 ==> len(result.(Polygon)[r]) >= 1 && result.(Polygon)[r][0] == p[r][0] && result.(Polygon)[r][len(result.(Polygon)[r])-1] == p[r][len(p[r])-1])
+//@   modifies nothing
+//@   loop 1 `for i, r := range p`
+//@     invariant [prefix] 0 <= #1 && #1 <= len(p) && fresh(out) && len(out) == len(p)
+//@     invariant [rings] forall r int :: 0 <= r && r < #1 ==> fresh(out[r]) && len(out[r]) <= len(p[r]) && (len(p[r]) >= 1 ==> len(out[r]) >= 1 && out[r][0] == p[r][0] && out[r][len(out[r])-1] == p[r][len(p[r])-1])
+
+//@ func (ml MultiLineString) Simplify
+//@   prop C13
+//@   mode real
+//@   ensures [type] typeof(result) == MultiLineString && fresh(result.(MultiLineString)) && len(result.(MultiLineString)) == len(ml)
+//@   modifies nothing
+//@   loop 1 `for i, l := range ml`
+//@     invariant [prefix] 0 <= #1 && #1 <= len(ml) && fresh(out) && len(out) == len(ml)
+
+//@ func (mp MultiPolygon) Simplify
+//@   prop C13
+//@   mode real
+//@   ensures [type] typeof(result) == MultiPolygon && fresh(result.(MultiPolygon)) && len(result.(MultiPolygon)) == len(mp)
+//@   modifies nothing
+//@   loop 1 `for i, p := range mp`
+//@     invariant [prefix] 0 <= #1 && #1 <= len(mp) && fresh(out) && len(out) == len(mp)
